@@ -7,7 +7,7 @@ CONFIG = {'gen': ['ConstsC08'],
          'random bytes), target-info lists (duplicates, empty values, EOL inside, truncations, trailing bytes), SPNEGO (token lengths '
          '0..140, 200..270, 65480..65545, 65536.., nil and empty tokens; NegTokenResp with states/mechanisms incl. rejected OIDs; every '
          'two-byte header 60 xx; truncations; single-byte header corruptions of valid tokens), ProcessChallengeToken end to end; distinct '
-         '= distinct input line; non-trivial = implementation output is a non-empty value',
+         '= distinct input line; non-trivial = implementation output is a non-empty value In the MaxLen variants the BufferOffset of an empty TargetName / TargetInfo is also arbitrary (0, 8, 48, 55).',
  'assumptions': ['strings.ToUpper and utf16.EncodeUTF16LE are arbitrary functions in the theorems; at run time the harness passes the Go '
                  'results as finite tables',
                  'encoding/asn1 Marshal/Unmarshal behave on the six Go types used as modelled (tied on every run, including malformed '
